@@ -349,7 +349,7 @@ def history_get_cases(draw, P):
 
     ops.append(get_op())
     for _ in range(draw(st.integers(2, P.get("max_ops", 9)))):
-        what = draw(st.sampled_from(["get", "get", "get", "submit", "submit", "crash", "shutdown", "shutdown_kill",
+        what = draw(st.sampled_from(["get", "get", "get", "submit", "submit", "crash", "shutdown", "shutdown_kill", "shutdown_nowait",
                                      "idle", "wait"] + (["cbget"] if P.get("cbget") and not uses_gate else [])))
         if what == "get":
             ops.append(get_op())
@@ -364,6 +364,13 @@ def history_get_cases(draw, P):
             ops.append(["shutdown", True, False])
         elif what == "shutdown_kill":
             ops.append(["shutdown", True, True])
+        elif what == "shutdown_nowait":
+            # a still-running long task, then a shutdown that does not wait: the next factory call must wait for it
+            if not uses_gate:
+                ops.append(["submit", {"kind": "gate", "token": tok, "g": 0}])
+                uses_gate = True
+                tok += 1
+            ops.append(["shutdown", False, False])
         elif what == "idle":
             ops.append(["sleep", draw(st.sampled_from([0.3, 2.0, 12.0, 40.0]))])
         elif what == "cbget":
@@ -375,10 +382,14 @@ def history_get_cases(draw, P):
             tok += 1
         else:
             ops.append(["wait_all"])
+    faults = []
+    if P.get("idle_death") and draw(st.integers(0, 2)) == 0:
+        faults = [{"worker": draw(st.integers(0, P["max_workers"] + 2)), "at": draw(st.integers(20, 120)), "cause": draw(st.sampled_from([-9, -11, 3]))}]
+        ops.append(["sleep", 50.0])          # settle: a watched death is noticed long before this ends
     ops.append(get_op())
-    ops.append(["submit", {"kind": "echo", "token": tok}])
-    ops.append(["wait_all"])
+    ops.append(["submit", {"kind": "echo", "token": 7777}])
+    ops.append(["result", 7777])
     program = [ops]
     if uses_gate:
         program.append([["sleep", draw(st.sampled_from([1e-3, 0.4, 3.0]))], ["open_gate", 0]])
-    return {"config": cfg, "program": program, "schedule": draw(schedules(P)), "faults": []}
+    return {"config": cfg, "program": program, "schedule": draw(schedules(P)), "faults": faults}
